@@ -603,28 +603,91 @@ pub mod vx_export {
         let name = |i: usize| AkdLabel(format!("user-{i}").into_bytes());
         dir.publish((0..n).map(|i| (name(i), AkdValue(format!("v1-{i}").into_bytes()))).collect()).await?;
         dir.publish((0..n).map(|i| (name(i), AkdValue(format!("v2-{i}").into_bytes()))).collect()).await?;
+        // third publish: the even users re-submit the value they already have (no new version, their latest update stays in epoch 2),
+        // the odd users change theirs; a fourth publish carrying only unchanged values creates no epoch at all
+        let third = |i: usize| if i % 2 == 0 { format!("v2-{i}") } else { format!("v3-{i}") };
+        dir.publish((0..n).map(|i| (name(i), AkdValue(third(i).into_bytes()))).collect()).await?;
+        let before = dir.get_epoch_hash().await?;
+        let again = dir.publish((0..n).map(|i| (name(i), AkdValue(third(i).into_bytes()))).collect()).await?;
         let pk = dir.get_public_key().await?;
         let mut bad = vec![];
+        let top = if n >= 2 { 3u64 } else { 2u64 };
+        if before.epoch() != top { bad.push(format!("after three publishes (the third changing only the odd users) the directory is at epoch {} instead of {top}", before.epoch())); }
+        if again.epoch() != before.epoch() || again.hash() != before.hash() { bad.push(format!("a publish carrying only unchanged values moved the directory from epoch {} to epoch {}", before.epoch(), again.epoch())); }
         match dir.lookup(AkdLabel::from("never-published")).await { Ok(_) => bad.push("lookup of a label that was never published produced a proof".to_string()), Err(_) => {} }
         for i in 0..n {
-            let want2 = AkdValue(format!("v2-{i}").into_bytes());
+            let want = AkdValue(third(i).into_bytes());
+            let (want_ver, want_ep) = if i % 2 == 0 { (2u64, 2u64) } else { (3u64, 3u64) };
             match dir.lookup(name(i)).await {
                 Ok((proof, eh)) => match lookup_verify::<TC>(pk.as_bytes(), eh.hash(), eh.epoch(), name(i), proof) {
-                    Ok(r) => if r.value != want2 || r.version != 2 || r.epoch != 2 { bad.push(format!("lookup(user-{i}) verified to (version {}, epoch {}) instead of the latest", r.version, r.epoch)) },
+                    Ok(r) => if r.value != want || r.version != want_ver || r.epoch != want_ep { bad.push(format!("lookup(user-{i}) verified to (version {}, epoch {}) instead of (version {want_ver}, epoch {want_ep}): the version counts the DISTINCT successive values", r.version, r.epoch)) },
                     Err(e) => bad.push(format!("lookup(user-{i}) does not verify: {e}")),
                 },
                 Err(e) => bad.push(format!("lookup(user-{i}) failed: {e}")),
             }
-            for (params, want_n) in [(HistoryParams::Complete, 2usize), (HistoryParams::MostRecent(1), 1), (HistoryParams::MostRecent(5), 2)] {
+            match dir.batch_lookup(&[name(i)]).await {
+                Ok((proofs, eh)) => match proofs.into_iter().next() {
+                    Some(proof) => match lookup_verify::<TC>(pk.as_bytes(), eh.hash(), eh.epoch(), name(i), proof) {
+                        Ok(r) => if r.value != want || r.version != want_ver || r.epoch != want_ep { bad.push(format!("batch_lookup(user-{i}) verified to (version {}, epoch {}) instead of (version {want_ver}, epoch {want_ep})", r.version, r.epoch)) },
+                        Err(e) => bad.push(format!("batch_lookup(user-{i}) does not verify: {e}")),
+                    },
+                    None => bad.push(format!("batch_lookup(user-{i}) returned no proof")),
+                },
+                Err(e) => bad.push(format!("batch_lookup(user-{i}) failed: {e}")),
+            }
+            let total = want_ver as usize;
+            for (params, want_n) in [(HistoryParams::Complete, total), (HistoryParams::MostRecent(1), 1), (HistoryParams::MostRecent(5), total)] {
                 match dir.key_history(&name(i), params).await {
                     Ok((proof, eh)) => match key_history_verify::<TC>(pk.as_bytes(), eh.hash(), eh.epoch(), name(i), proof, HistoryVerificationParams::Default { history_params: params }) {
-                        Ok(rs) => if rs.len() != want_n || rs[0].version != 2 || rs[0].value != want2 { bad.push(format!("key_history(user-{i}, {params:?}) verified to {} entries starting at version {}", rs.len(), rs.first().map(|r| r.version).unwrap_or(0))) },
+                        Ok(rs) => if rs.len() != want_n || rs[0].version != want_ver || rs[0].value != want { bad.push(format!("key_history(user-{i}, {params:?}) verified to {} entries starting at version {}", rs.len(), rs.first().map(|r| r.version).unwrap_or(0))) },
                         Err(e) => bad.push(format!("key_history(user-{i}, {params:?}) does not verify: {e}")),
                     },
                     Err(e) => bad.push(format!("key_history(user-{i}, {params:?}) failed: {e}")),
                 }
             }
         }
+        Ok(bad)
+    }
+
+    // ---- C18: the labels a publish places in the tree follow the VRF key of THAT directory (two keys in one process)
+    #[derive(Clone)]
+    pub struct SeedVRF(pub [u8; 32]);
+    #[async_trait::async_trait]
+    impl VRFKeyStorage for SeedVRF {
+        async fn retrieve(&self) -> Result<Vec<u8>, akd_core::ecvrf::VrfError> { Ok(self.0.to_vec()) }
+    }
+    /// For each of `seeds` in turn (same process): the batch call get_node_labels (what publish uses) must return, for every tuple,
+    /// the label the single call returns and the label the VRF proof of that tuple verifies to under that key's public key; and two
+    /// different keys must not produce the same label for the same tuple. Returns descriptions of what fails.
+    pub async fn c18_labels_follow_key<TC: Configuration>(seeds: Vec<[u8; 32]>, tuples: Vec<(Vec<u8>, bool, u64)>) -> Result<Vec<String>, AkdError> {
+        let mut bad = vec![];
+        let batch: Vec<(AkdLabel, VersionFreshness, u64, AkdValue)> = tuples.iter()
+            .map(|(l, f, v)| (AkdLabel(l.clone()), if *f { VersionFreshness::Fresh } else { VersionFreshness::Stale }, *v, AkdValue(vec![1]))).collect();
+        let mut per_key: Vec<Vec<NodeLabel>> = vec![];
+        for (ki, seed) in seeds.iter().enumerate() {
+            let vrf = SeedVRF(*seed);
+            let pk = vrf.get_vrf_public_key().await.map_err(|e| AkdError::TestErr(format!("{e}")))?;
+            let got = vrf.get_node_labels::<TC>(&batch).await.map_err(|e| AkdError::TestErr(format!("{e}")))?;
+            if got.len() != batch.len() { bad.push(format!("key #{ki}: get_node_labels returned {} labels for {} tuples", got.len(), batch.len())); }
+            let mut mine = vec![];
+            for t in &batch {
+                let placed = match got.iter().find(|(k, _)| k == t) { Some((_, l)) => *l, None => { bad.push(format!("key #{ki}: no label returned for tuple ({:?}, {:?}, {})", t.0, t.1, t.2)); continue; } };
+                let single = vrf.get_node_label::<TC>(&t.0, t.1, t.2).await.map_err(|e| AkdError::TestErr(format!("{e}")))?;
+                let proof = vrf.get_label_proof::<TC>(&t.0, t.1, t.2).await.map_err(|e| AkdError::TestErr(format!("{e}")))?;
+                let from_proof = vrf.get_node_label_from_vrf_proof(proof.clone()).await;
+                let verifies = pk.verify(&proof, &TC::get_hash_from_label_input(&t.0, t.1, t.2)).is_ok();
+                if placed != single || placed != from_proof || !verifies {
+                    bad.push(format!("key #{ki}, tuple ({:?}, {:?}, {}): label placed in the tree by the batch call differs from the label of the single call / of the VRF proof (verifies under the key's public key: {verifies})", t.0, t.1, t.2));
+                }
+                mine.push(placed);
+            }
+            per_key.push(mine);
+        }
+        for a in 0..per_key.len() { for b in a + 1..per_key.len() {
+            if seeds[a] != seeds[b] { for i in 0..per_key[a].len().min(per_key[b].len()) {
+                if per_key[a][i] == per_key[b][i] { bad.push(format!("keys #{a} and #{b} give the same node label for tuple #{i}")); }
+            } }
+        } }
         Ok(bad)
     }
 
